@@ -176,6 +176,14 @@ func GetInstantiatedStructType [C15]
   // ... and none is returned whose arguments differ
   ensures forall k int :: 0 <= k && k < old(len(s.Instantiations)) && slices.eqAllBy(old(s.Instantiations[k]).instantiatedWith, genericTypes, Equal) ==>
             (exists j int :: 0 <= j && j <= k && result == old(s.Instantiations[j]))
+  // ... different arguments => a different type object: when no cached instantiation matches, the result is none of them
+  ensures result != nil && (forall k int :: 0 <= k && k < old(len(s.Instantiations)) ==>
+              !slices.eqAllBy(old(s.Instantiations[k]).instantiatedWith, genericTypes, Equal)) ==>
+            (forall k int :: 0 <= k && k < old(len(s.Instantiations)) ==> result != old(s.Instantiations[k]))
+  // whatever is returned is cached afterwards (so that the next request with equal arguments finds it) and remembers its arguments
+  ensures result != nil ==> (exists k int :: 0 <= k && k < len(s.Instantiations) && s.Instantiations[k] == result)
+  // the request fails only for a wrong number of type arguments
+  ensures result == nil ==> len(genericTypes) != len(s.GenericTypes)
   loop 0 invariant forall k int :: 0 <= k && k <= rangeindex0 && k < len(s.Instantiations) ==>
                      !slices.eqAllBy(s.Instantiations[k].instantiatedWith, genericTypes, Equal)
   loop 0 invariant s.Instantiations == old(s.Instantiations)
